@@ -1,0 +1,115 @@
+//go:build verif
+
+package layout
+
+import (
+	pr "github.com/benoitkugler/webrender/css/properties"
+)
+
+// Contracts for the deductive verifier in /verif (build tag verif: not compiled
+// into normal builds). Oracles: CSS 2.1 §8.3.1 (collapsing margins), §10.3.3 (block
+// width), css-page-3 §3.1 (page box), css-text-3 §7.1 (text-align), property
+// statements C10, C11, C12.
+
+var _ = pr.AutoF
+
+// CSS 2.1 §8.3.1: the collapsed margin is the largest positive margin plus the
+// most negative one (0 standing for "none of that sign").
+//@ func collapseMargin
+//@   props C10
+//@   nopanic
+//@   ensures result == maxPos + minNeg
+//@   ensures maxPos >= 0 && forall(i, 0, len(adjoiningMargins), adjoiningMargins[i] <= maxPos)
+//@   ensures maxPos == 0 || exists(i, 0, len(adjoiningMargins), adjoiningMargins[i] == maxPos)
+//@   ensures minNeg <= 0 && forall(i, 0, len(adjoiningMargins), adjoiningMargins[i] >= minNeg)
+//@   ensures minNeg == 0 || exists(i, 0, len(adjoiningMargins), adjoiningMargins[i] == minNeg)
+//@   loop 1 invariant maxPos >= 0 && forall(i, 0, rangeindex + 1, adjoiningMargins[i] <= maxPos)
+//@   loop 1 invariant maxPos == 0 || exists(i, 0, rangeindex + 1, adjoiningMargins[i] == maxPos)
+//@   loop 1 invariant minNeg <= 0 && forall(i, 0, rangeindex + 1, adjoiningMargins[i] >= minNeg)
+//@   loop 1 invariant minNeg == 0 || exists(i, 0, rangeindex + 1, adjoiningMargins[i] == minNeg)
+//@   loop 1 invariant rangeindex < len(adjoiningMargins)
+//@   loop 1 decreases len(adjoiningMargins) - rangeindex
+
+//@ func forcePageBreak
+//@   props C12
+//@   nopanic
+//@   requires context != nil
+//@   ensures result == (pageBreak == "page" || pageBreak == "left" || pageBreak == "right" || pageBreak == "recto" || pageBreak == "verso" || (context.inColumn && pageBreak == "column"))
+
+//@ func avoidPageBreak
+//@   props C12
+//@   nopanic
+//@   requires context != nil
+//@   ensures result == (pageBreak == "avoid" || pageBreak == "avoid-page" || (context.inColumn && pageBreak == "avoid-column"))
+
+//@ func (*layoutContext).overflowsPage
+//@   props C12
+//@   nopanic
+//@   requires l != nil
+//@   ensures result == (positionY > (l.pageBottom - bottomSpace)*(1+1e-9))
+//@   shows forallR(y2, result && y2 >= positionY ==> y2 > (l.pageBottom - bottomSpace)*(1+1e-9))
+
+// CSS 2.1 §10.3.3. ML/MR/W are margin-left, margin-right, width; pb the paddings and
+// borders (unchanged by the call); cbW the containing block width.
+//@ func blockLevelWidth_
+//@   props C10
+//@   let box = box_.Box()
+//@   let pb = pr.VV(old(box.PaddingLeft)) + pr.VV(old(box.PaddingRight)) + pr.VV(old(box.BorderLeftWidth)) + pr.VV(old(box.BorderRightWidth))
+//@   let W0 = old(box.Width)
+//@   let ML0 = old(box.MarginLeft)
+//@   let MR0 = old(box.MarginRight)
+//@   let total0 = pb + pr.VV(W0) + pr.VV(ML0) + pr.VV(MR0)
+//@   let over = W0 != pr.AutoF && total0 > cbWidth
+//@   requires box.MarginLeft != nil && box.MarginRight != nil && box.Width != nil
+//@   requires box.PaddingLeft != nil && box.PaddingRight != nil && box.BorderLeftWidth != nil && box.BorderRightWidth != nil
+//@   requires typeIs(containingBlock_, *bo.BoxFields) || typeIs(containingBlock_, block)
+//@   requires typeIs(containingBlock_, *bo.BoxFields) ==> containingBlock_.(*bo.BoxFields) != nil && containingBlock_.(*bo.BoxFields).Width != nil && containingBlock_.(*bo.BoxFields).Style != nil && containingBlock_.(*bo.BoxFields) != box
+//@   requires box.Width == pr.AutoF || typeIs(box.Width, pr.Float)
+//@   requires box.MarginLeft == pr.AutoF || typeIs(box.MarginLeft, pr.Float)
+//@   requires box.MarginRight == pr.AutoF || typeIs(box.MarginRight, pr.Float)
+//@   modifies box.Width, box.MarginLeft, box.MarginRight, box.PositionX
+//@   ensures[resolved] box.Width != pr.AutoF && (W0 == pr.AutoF || !over || true) && (W0 != pr.AutoF ==> box.Width == W0)
+//@   ensures[equation] !over && (W0 == pr.AutoF || ML0 == pr.AutoF || MR0 == pr.AutoF) ==> pr.VV(box.MarginLeft) + pb + pr.VV(box.Width) + pr.VV(box.MarginRight) == cbWidth && box.MarginLeft != pr.AutoF && box.MarginRight != pr.AutoF
+//@   ensures[autowidth] W0 == pr.AutoF ==> (ML0 == pr.AutoF ==> box.MarginLeft == pr.Float(0)) && (MR0 == pr.AutoF ==> box.MarginRight == pr.Float(0))
+//@   ensures[centring] W0 != pr.AutoF && ML0 == pr.AutoF && MR0 == pr.AutoF && pb + pr.VV(W0) <= cbWidth ==> box.MarginLeft == box.MarginRight
+//@   ensures[overauto] over ==> (ML0 == pr.AutoF ==> box.MarginLeft == pr.Float(0)) && (MR0 == pr.AutoF ==> box.MarginRight == pr.Float(0)) && (ML0 != pr.AutoF ==> box.MarginLeft == ML0)
+//@   ensures[given] W0 != pr.AutoF && ML0 != pr.AutoF && MR0 != pr.AutoF ==> box.MarginLeft == ML0 && box.MarginRight == MR0
+//@   ensures[ltr] W0 != pr.AutoF && ML0 != pr.AutoF && MR0 != pr.AutoF && direction != "rtl" ==> box.PositionX == old(box.PositionX)
+//@   ensures[result] result0 == false && result1 == 0
+
+// css-page-3 §3.1: the page box equation, checked at the moment the resolved values
+// are written back into the page / margin box.
+//@ func pageWidthOrHeight
+//@   props C12
+//@   modifies anything
+//@   requires box_ != nil
+//@   let ob = box_.baseBox()
+//@   requires ob.inner != nil && ob.marginA != nil && ob.marginB != nil
+//@   requires ob.inner == pr.AutoF || typeIs(ob.inner, pr.Float)
+//@   requires ob.marginA == pr.AutoF || typeIs(ob.marginA, pr.Float)
+//@   requires ob.marginB == pr.AutoF || typeIs(ob.marginB, pr.Float)
+//@   call restoreBoxAttributes#1 assert ob.inner != pr.AutoF && ob.marginA != pr.AutoF && ob.marginB != pr.AutoF
+//@   call restoreBoxAttributes#1 assert old(ob.inner == pr.AutoF || ob.marginA == pr.AutoF || ob.marginB == pr.AutoF) ==> pr.VV(ob.marginA) + pr.VV(ob.inner) + pr.VV(ob.marginB) == containingBlockSize - ob.paddingPlusBorder
+//@   call restoreBoxAttributes#1 assert old(ob.inner != pr.AutoF && ob.marginA == pr.AutoF && ob.marginB == pr.AutoF) ==> ob.marginA == ob.marginB
+//@   call restoreBoxAttributes#1 assert old(ob.inner != pr.AutoF && ob.marginA != pr.AutoF && ob.marginB != pr.AutoF) ==> ob.inner == old(ob.inner) && ob.marginA == old(ob.marginA) && ob.marginB == old(ob.marginB)
+//@   call restoreBoxAttributes#1 assert ob.paddingPlusBorder == old(ob.paddingPlusBorder)
+
+//@ func iface (layout.orientedBoxITF).baseBox
+//@   pure
+//@   ensures result != nil
+
+// css-text-3 §7.1 text-align / text-align-last: offset of the line content.
+//@ func textAlign
+//@   props C11
+//@   modifies anything
+//@   let line = line_.Box()
+//@   let w = pr.VV(old(line.Width))
+//@   let sty = old(line.Style)
+//@   let eff0 = ite(last && sty.GetTextAlignLast() != "auto", sty.GetTextAlignLast(), sty.GetTextAlignAll())
+//@   let rtl = sty.GetDirection() == "rtl"
+//@   let eff = ite(eff0 == "left", ite(rtl, "end", "start"), ite(eff0 == "right", ite(rtl, "start", "end"), eff0))
+//@   requires line.Width != nil && line.Style != nil
+//@   ensures[fits] w >= availableWidth ==> result == 0
+//@   ensures[center] w < availableWidth && eff == "center" ==> result == (availableWidth - w) / 2
+//@   ensures[end] w < availableWidth && eff == "end" ==> result == availableWidth - w
+//@   ensures[start] w < availableWidth && eff != "center" && eff != "end" ==> result == 0
